@@ -88,7 +88,14 @@ fn make_task(sh: Arc<Shared>, id: usize, kind: String, ms: u64, group: usize, gr
             "panic" => {
                 log(&sh, id, "panic");
                 sh.done[id].fetch_add(1, Ordering::SeqCst);
-                panic!("task {} panics on purpose", id);
+                // what the task panics with: a formatted message (String), a literal (&'static str),
+                // or a payload that is not a string at all
+                match ms {
+                    1 => panic!("task panics on purpose"),
+                    2 => std::panic::panic_any(503u16),
+                    3 => std::panic::resume_unwind(Box::new(std::io::Error::new(std::io::ErrorKind::Other, "typed failure"))),
+                    _ => panic!("task {} panics on purpose", id),
+                }
             }
             "sleep" => humsim::thread::sleep(Duration::from_millis(ms)),
             "barrier" => {
@@ -125,7 +132,7 @@ impl Prop for C08 {
         }
     }
     fn rule(&self) -> &'static str {
-        "One case = one lifecycle script {start?, tasks (plain/panic/sleep/barrier with submit gaps), wait?, final barrier batch?, stop x0..2, drop} for 1..4 workers, run under one seeded schedule (random / sticky / PCT / round-robin) of submitter, workers and recovery thread. Distinct = distinct history shape: the sequence of (task, event, executing worker name) in global decision order plus the lifecycle. Non-trivial = at least two workers and two tasks, or at least one panicking task, or a shutdown with tasks still queued."
+        "One case = one lifecycle script {start?, tasks (plain/panic with a formatted message, a literal, a non-string payload via panic_any or a typed error via resume_unwind/sleep/barrier with submit gaps), a monitor registered or not, wait?, final barrier batch?, stop x0..2, drop} for 1..4 workers, run under one seeded schedule (random / sticky / PCT / round-robin) of submitter, workers and recovery thread. Distinct = distinct history shape: the sequence of (task, event, executing worker name) in global decision order plus the lifecycle. Non-trivial = at least two workers and two tasks, or at least one panicking task, or a shutdown with tasks still queued."
     }
     fn assumptions(&self) -> Vec<String> {
         vec![
@@ -135,7 +142,7 @@ impl Prop for C08 {
         ]
     }
     fn expected_counters(&self) -> Vec<&'static str> {
-        vec!["c08.panic_tasks", "c08.restarted_worker_ran_task", "c08.drop_without_stop", "c08.stop_twice", "c08.queued_at_shutdown", "c08.final_batch_after_panic"]
+        vec!["c08.panic_tasks", "c08.panic_with_non_string_payload", "c08.restarted_worker_ran_task", "c08.drop_without_stop", "c08.stop_twice", "c08.queued_at_shutdown", "c08.final_batch_after_panic"]
     }
     fn real_vs_stub(&self) -> (Vec<&'static str>, Vec<&'static str>) {
         (
@@ -168,7 +175,7 @@ impl Prop for C08 {
             };
             tasks.push(Task {
                 kind: kind.into(),
-                ms: if kind == "sleep" { [0u64, 1, 50, 150, 1000][rng.usize_below(5)] } else { 0 },
+                ms: if kind == "sleep" { [0u64, 1, 50, 150, 1000][rng.usize_below(5)] } else if kind == "panic" { [0u64, 0, 1, 2, 3][rng.usize_below(5)] } else { 0 },
                 gap_us: if rng.chance(1, 3) { [1u64, 100, 10_000, 200_000][rng.usize_below(4)] } else { 0 },
             });
         }
@@ -329,6 +336,7 @@ impl Prop for C08 {
         let n_sub = submitted.load(Ordering::SeqCst) as usize;
         let npanic = scn.tasks.iter().filter(|t| t.kind == "panic").count();
         rr.count("c08.panic_tasks", npanic as u64);
+        rr.count("c08.panic_with_non_string_payload", scn.tasks.iter().filter(|t| t.kind == "panic" && t.ms >= 2).count() as u64);
         if scn.start && scn.stops == 0 {
             rr.count("c08.drop_without_stop", 1);
         }
